@@ -252,6 +252,9 @@ class SpecEval(object):
             return SV(seq[i], elem_type(ty))
         if z3.is_expr(base) and base.sort() == SeqVal:
             return SV(base[int_of(idx)], Ty.ANY)
+        if z3.is_expr(base) and z3.is_array(base):
+            r = base[val_of(idx)]
+            return SV(r, Ty.ANY) if r.sort() == Val else r
         if z3.is_expr(base) and base.sort() == StrS:
             return z3.SubString(base, int_of(idx), 1)
         raise SpecError('cannot index %r' % (base,))
@@ -336,6 +339,8 @@ class SpecEval(object):
         if isinstance(b, SV) and b.has_py and isinstance(b.py, front.CONST_TYPES):
             b = b.py
         ka, kb = kind_of(a), kind_of(b)
+        if ka == 'other' and kb == 'other' and a.sort() == b.sort():
+            return a == b           # whole-array comparison (dict key sets / value maps)
         if ka == 'py' and kb == 'py':
             return z3.BoolVal(a == b)
         if ka == 'seq' or kb == 'seq':
@@ -424,7 +429,7 @@ class SpecEval(object):
                 zs = []
                 for a, s in zip(args, argsorts):
                     zs.append({'Val': val_of, 'Int': int_of, 'Str': str_of, 'Bool': lambda x: to_bool(self.st, x),
-                               'Seq': self.seqterm}[s](a))
+                               'Seq': self.seqterm, 'KeySet': lambda x: x, 'KeyMap': lambda x: x}[s](a))
                 r = f(*zs)
                 if res == 'Val':
                     return SV(r, Ty.ANY)
